@@ -59,6 +59,12 @@ func c47body(c c47cfg) func(x *vsched.Exec) {
 					return AuthCredentials{Username: "fu", Password: "fp"}, nil
 				}
 				srv.Users["fu"] = "fp"
+			case "fnpw":
+				// dynamic credentials with a password only (default user); the static Password stays empty
+				o.AuthCredentialsFn = func(AuthCredentialsContext) (AuthCredentials, error) {
+					return AuthCredentials{Password: "dp"}, nil
+				}
+				srv.Users["default"] = "dp"
 			}
 			o.ClientName = c.name
 			o.SelectDB = c.db
@@ -164,7 +170,7 @@ func c47body(c c47cfg) func(x *vsched.Exec) {
 		bad := func(what string, got, want any) {
 			x.Fail("session setting not applied before the first user command: "+what, "%s: %s = %v, want %v", c, what, got, want)
 		}
-		wantUser := map[string]string{"none": "default", "pw": "default", "userpw": "u", "fn": "fu"}[c.auth]
+		wantUser := map[string]string{"none": "default", "pw": "default", "userpw": "u", "fn": "fu", "fnpw": "default"}[c.auth]
 		if sess.User != wantUser || (c.auth != "none" && !sess.Authed) {
 			bad("authenticated user", sess.User, wantUser)
 		}
@@ -217,10 +223,10 @@ func c47body(c c47cfg) func(x *vsched.Exec) {
 
 func TestVerif_C47(t *testing.T) {
 	vrun.Main(t, "C47", func(r *vrun.Run) {
-		r.Rule = "full product of credentials {none, password, user+password, AuthCredentialsFn} x ClientName x SelectDB x tracking {OPTIN default, OPTOUT, BCAST+PREFIX, DisableCache} x ReplicaOnly x ClientNoTouch x ClientNoEvict x ClientSetInfo {default, custom, disabled} x AlwaysRESP2 x server {RESP3, rejects HELLO, rejects HELLO 3}; plus each setup command failing with an error reply; one deterministic execution each (NewClient handshake + one user command) against the fake server, whose per-connection session state is the oracle"
+		r.Rule = "full product of credentials {none, password, user+password, AuthCredentialsFn with user+password, AuthCredentialsFn with a password only} x ClientName x SelectDB x tracking {OPTIN default, OPTOUT, BCAST+PREFIX, DisableCache} x ReplicaOnly x ClientNoTouch x ClientNoEvict x ClientSetInfo {default, custom, disabled} x AlwaysRESP2 x server {RESP3, rejects HELLO, rejects HELLO 3}; plus each setup command failing with an error reply; one deterministic execution each (NewClient handshake + one user command) against the fake server, whose per-connection session state is the oracle"
 		var cfgs []c47cfg
 		for _, server := range []string{"resp3", "nohello", "nohello3"} {
-			for _, auth := range []string{"none", "pw", "userpw", "fn"} {
+			for _, auth := range []string{"none", "pw", "userpw", "fn", "fnpw"} {
 				for _, name := range []string{"", "cn"} {
 					for _, db := range []int{0, 3} {
 						for _, trk := range []string{"optin", "optout", "bcast", "off"} {
